@@ -342,7 +342,10 @@ def build_dist(dimspec):
     if dimspec.get("cond") is None:
         return cls(**{k: v for k, v in dimspec["params"].items()})
     fixed = {f"f_{k}": v for k, v in dimspec["params"].items() if not isinstance(v, dict)}
-    return cls(**fixed)
+    # documented: "if f_<name> is set, <name> is ignored": every fixed value is accompanied by a decoy plain value
+    # (given AFTER the fixed one), which must never be used
+    decoy = {k: v * 1.37 + 0.11 for k, v in dimspec["params"].items() if not isinstance(v, dict)}
+    return cls(**fixed, **decoy)
 
 
 def build_virocon(spec):
